@@ -38,7 +38,7 @@ KINDS = {
     'beam': [('m', Fraction(1)), ('mm', Fraction(1, 1000)), ('cm', Fraction(1, 100)), ('km', Fraction(1000))],
     'wavelength': [('angstrom', Fraction(1)), ('nm', Fraction(10)), ('pm', Fraction(1, 100)), ('m', Fraction(10**10))],
     'energy': [('meV', Fraction(1)), ('ueV', Fraction(1, 1000)), ('eV', Fraction(1000)), ('J', E_J * 1000)],
-    'angle': [('rad', None), ('deg', None)],
+    'angle': [('rad', None), ('deg', None), ('arcmin', None), ('mrad', None)],
     'Q': [('1/angstrom', Fraction(1)), ('1/nm', Fraction(1, 10)), ('1/m', Fraction(1, 10**10))],
     'accel': [('m/s^2', Fraction(1)), ('mm/s^2', Fraction(1, 1000)), ('cm/s^2', Fraction(1, 100))],
 }
@@ -49,7 +49,7 @@ DTYPES = ['float64', 'float32', 'int64', 'int32']
 # generated from these moderate units; everything else is counted as out of the float32 domain.
 F32_DOMAIN = {
     'time': {'us', 'ms', 'ns'}, 'length': {'m', 'mm', 'cm', 'km'}, 'beam': {'m', 'mm', 'cm', 'km'},
-    'wavelength': {'angstrom', 'nm', 'pm'}, 'energy': {'meV', 'ueV', 'eV'}, 'angle': {'rad', 'deg'},
+    'wavelength': {'angstrom', 'nm', 'pm'}, 'energy': {'meV', 'ueV', 'eV'}, 'angle': {'rad', 'deg', 'arcmin', 'mrad'},
     'Q': {'1/angstrom', '1/nm'}, 'accel': {'m/s^2', 'mm/s^2', 'cm/s^2'},
 }
 
@@ -169,13 +169,15 @@ def draw_vectors(rng, spec, n, point_index=0):
 def express(value: Fraction, kind, unit, dtype):
     """Value of the physical quantity in (unit, dtype); None if the cell cannot hold it exactly enough."""
     if kind == 'angle':
-        v = value if unit == 'deg' else None
+        # the physical value is a whole number of degrees; deg and arcmin hold it exactly (also as integers)
+        per_deg = {'deg': 1, 'arcmin': 60}.get(unit)
         if dtype.startswith('int'):
-            if unit != 'deg':
+            if per_deg is None:
                 return None
-            return int(value)
-        x = float(value) if unit == 'deg' else float(si.ld(value) * si.PI / 180)
-        return x
+            return int(value * per_deg)
+        if per_deg is not None:
+            return float(value * per_deg)
+        return float(si.ld(value) * si.PI / 180 / si.factor(sc.Unit(unit)))
     f = dict(KINDS[kind])[unit]
     q = value / f
     if dtype.startswith('int'):
@@ -379,7 +381,7 @@ def plan(tier, seed):
     per = 2 if tier == 'quick' else 2
     for i in range(0, len(SPECS), per):
         shards.append({'kernels': [s.name for s in SPECS[i:i + per]],
-                       'cells': 400 if tier == 'quick' else 140000, 'points': 2 if tier == 'quick' else 2})
+                       'cells': 3000 if tier == 'quick' else 140000, 'points': 2 if tier == 'quick' else 2})
     return shards
 
 
